@@ -59,6 +59,12 @@ Definition peq (p q : list Q) : Prop := forall n, coef p n == coef q n.
 Fixpoint pseries (basis : nat -> list Q) (c : nat -> Q) (n : nat) : list Q :=
   match n with O => [] | S n' => padd (pseries basis c n') (pscale (c n') (basis n')) end.
 
+(* affine substitution p(a X + b): the interval map  x = (y - off) / fac  is  a = 1/fac, b = -off/fac *)
+Definition plin (a b : Q) (q : list Q) : list Q := padd (pscale a (pX q)) (pscale b q).     (* (a X + b) q *)
+Fixpoint linpow (a b : Q) (j : nat) : list Q := match j with O => [1] | S j' => plin a b (linpow a b j') end.
+Definition pcomp_aff (a b : Q) (p : list Q) : list Q := pseries (linpow a b) (coef p) (length p).   (* p(a X + b) *)
+
+
 (* ------------------------------------------------------------------ Chebyshev / Gegenbauer polynomials *)
 
 (* (P_n, P_{n+1}) for the three-term recurrence  P_{n+2} = 2 x P_{n+1} - P_n  *)
